@@ -367,6 +367,8 @@ impl Record {
                 return None;
             }
             debug_assert!(state & EXTENT_READERS != EXTENT_READERS);
+            #[cfg(feoxdb_verif)]
+            crate::verif::yield_point("pin.between_check_and_increment");
             match self.extent_state.compare_exchange_weak(
                 state,
                 state + 1,
